@@ -113,6 +113,9 @@ def run(rep, work, tier, seed, only=None):
             rep.violation(key, '/code-data for %s: %s' % (desc, '; '.join(x['problems'][:2])), {'request': desc, 'problems': x['problems']})
     for x in data['decode']:
         desc = {k: x[k] for k in ('menu', 'size', 'decoder', 'code_deformation', 'noise_deformation', 'error_model')}
+        if x.get('clean_lattice'):
+            desc['syndrome'] = 'all-zero (clean lattice)'
+            x.setdefault('status_new', 200)       # no /new-errors request goes with these
         rep.case(('decode', json.dumps(desc, sort_keys=True)), True, sample=desc if len(rep.samples) < 5 else None)
         rep.count('decode')
         key = {'site': '/decode', 'cls': x['cls'], 'decoder': x['decoder']}
